@@ -234,6 +234,42 @@ def run_check(check: Check, tier: str, replay: Optional[str] = None) -> int:
             if len(mismatches) <= 3:
                 notes.append(f"correspondence: case {i}: {d}")
 
+    # 4b. float cancellation: a disagreement that disappears when every float that is within 1e-12 of a small rational
+    # (1/12 written as 0.08333333333333333) is handed to the MODEL as that rational is an artefact of exact arithmetic on
+    # rounded inputs (a coefficient that cancels to exactly 0.0 in floats keeps a 1e-17 residue exactly): tie-divergent, judged.
+    if mismatches and drv_ok:
+        rq, ridx = [], []
+        for i in mismatches:
+            try:
+                c2 = rationalise(cases[i])
+                r = check.model_request(c2, impls[i])
+            except Exception:
+                r = None
+            if r is not None:
+                rq.append(r)
+                ridx.append((i, c2))
+        try:
+            rr = C.run_driver(rq, nproc=16) if rq else []
+        except C.DriverError:
+            rr = []
+        still = []
+        resolved = set()
+        for (i, c2), mo2 in zip(ridx, rr):
+            if "fatal" in mo2:
+                continue
+            try:
+                d2 = check.compare(c2, impls[i], mo2)
+            except Exception:
+                d2 = "error"
+            if d2 is None or (isinstance(d2, str) and d2.startswith("TIE:")):
+                resolved.add(i)
+        if resolved:
+            mismatches = [i for i in mismatches if i not in resolved]
+            tie_idx.extend(sorted(resolved))
+            tie_divergent += len(resolved)
+            notes[:] = [n_ for n_ in notes if not any(n_.startswith(f"correspondence: case {i}:") for i in resolved)]
+            notes.append(f"{len(resolved)} disagreement(s) vanish when near-rational floats are given to the model as rationals (float cancellation): tie-divergent")
+
     # 5. judge -------------------------------------------------------------------------------------
     to_judge = set(mismatches) | set(tie_idx)
     if broken or mismatches:
@@ -356,6 +392,26 @@ def run_check(check: Check, tier: str, replay: Optional[str] = None) -> int:
           f"stuck={stuck} judged={len(jl)} violations={len(violations)} known={sum(known_hit.values())} "
           f"proofs={'ok' if proofs_ok else 'BROKEN'} theorems={discharged}/{obligations} wall={time.time()-t0:.1f}s exit={exit_code}")
     return exit_code
+
+
+def rationalise(x: Any) -> Any:
+    """floats within 1e-12 (relative) of a rational with denominator <= 10000 become that rational"""
+    from fractions import Fraction
+
+    if isinstance(x, bool):
+        return x
+    if isinstance(x, float):
+        if x != x or x in (float("inf"), float("-inf")):
+            return x
+        f = Fraction(x).limit_denominator(10000)
+        if abs(float(f) - x) <= 1e-12 * max(1.0, abs(x)):
+            return f
+        return x
+    if isinstance(x, dict):
+        return {k: rationalise(v) for k, v in x.items()}
+    if isinstance(x, list):
+        return [rationalise(v) for v in x]
+    return x
 
 
 def _trim(x: Any, n: int = 1200) -> Any:
